@@ -47,12 +47,17 @@ func genC18(t *rapid.T) ModelCase {
 	}
 	modelFriendly(a)
 	mode := c18Modes[uniformN(t, len(c18Modes), "mode")]
-	return ModelCase{App: a, Inputs: genGuidedHistory(t, a, 12, mode.Kind == "persist"), Mode: mode}
+	// half of the cases are served by resource.DbResource over a memdb (templates, labels
+	// and static symbol contents as db entries, translations under their language)
+	return ModelCase{App: a, Inputs: genGuidedHistory(t, a, 12, mode.Kind == "persist"), Mode: mode, UseDb: chancePct(t, 50, "usedb")}
 }
 
 func checkC18(c ModelCase) (o Outcome) {
 	asp := diffAspects{position: true, calls: true, callLang: true, lookups: true, lang: true, output: true, cont: true}
-	v, f, discard := modelDiff(c.App, c.Inputs, c.Mode, asp, nil)
+	v, f, discard := modelDiff(c.App, c.Inputs, c.Mode, asp, hooksFor(c))
+	if c.UseDb {
+		o.class("resource:db")
+	}
 	o.Viol, o.Discard = v, discard
 	o.NonTrivial = f.langSwitches >= 1 && f.translatedRender && f.untranslatedRender && c.Mode.Kind == "persist"
 	if f.langSwitches > 0 {
